@@ -16,8 +16,25 @@ pub enum Term {
     Null,
     Set(BTreeSet<Term>),
     Array(Vec<Term>),
-    Map(BTreeMap<MapKey, Term>),
+    Map(#[serde(with = "map_pairs")] BTreeMap<MapKey, Term>),
     Param(String),
+}
+
+/// JSON object keys must be strings: maps are serialised as lists of pairs
+mod map_pairs {
+    use super::{MapKey, Term};
+    use serde::{Deserialize, Deserializer, Serialize, Serializer};
+    use std::collections::BTreeMap;
+
+    pub fn serialize<S: Serializer>(m: &BTreeMap<MapKey, Term>, s: S) -> Result<S::Ok, S::Error> {
+        let v: Vec<(&MapKey, &Term)> = m.iter().collect();
+        v.serialize(s)
+    }
+
+    pub fn deserialize<'de, D: Deserializer<'de>>(d: D) -> Result<BTreeMap<MapKey, Term>, D::Error> {
+        let v: Vec<(MapKey, Term)> = Vec::deserialize(d)?;
+        Ok(v.into_iter().collect())
+    }
 }
 
 #[derive(Clone, Debug, PartialEq, Eq, PartialOrd, Ord, Hash, Serialize, Deserialize)]
